@@ -520,7 +520,7 @@ def vm_created(ctx, quick):
     nviol = 0
     for i, (build, (kind, name, src, mods)) in enumerate(jobs):
         r = recs[i]
-        if r.result[0] == "crash" and retried < 10:
+        if r.result[0] == "crash" and retried < 40:
             retried += 1    # a time-out under machine load is not a verdict: once more, alone, release build
             build = "release"
             r = yvlib.run_harness(ctx.harness("release"), [line(src, mods)], shards=1, case_timeout_ms=180000)[0]
